@@ -83,9 +83,23 @@ def probes(filedirs: List[str], above: bool = False):
     srcs = {"default", "user", "root", "extra", "override"} | set(filedirs) | {f"inl{j}" for j in range(1, len(filedirs) + 1)}
     if above:
         srcs.add("above")
-    lens = sorted(VAL_C[x] + 3 for x in srcs)
+    lens = sorted(VAL_C[x] + 1 for x in srcs)        # planted values are >= 2 apart, so v+1 separates neighbours
     alens = sorted(VAL_S[x] + 1 for x in srcs if VAL_S.get(x) is not None)
     return lens, alens, sorted(srcs)
+
+
+def decoder_selfcheck(filedirs: List[str]) -> None:
+    """Every planted value must decode back to its own layer from the probe set (else the harness is broken)."""
+    for above in (False, True):
+        lens, alens, srcs = probes(filedirs, above)
+        tc = {k: VAL_C[k] for k in srcs}
+        ts = {k: VAL_S[k] for k in srcs if k in VAL_S}
+        for k, v in tc.items():
+            if _decode_threshold(tc, {n for n in lens if n > v}, lens) != k:
+                raise MachineryError(f"C27 decoder: max_line_length of layer {k} is not identifiable from probes {lens}")
+        for k, v in ts.items():
+            if _decode_threshold(ts, {n for n in alens if v is not None and n > v}, alens) != k:
+                raise MachineryError(f"C27 decoder: max_alias_length of layer {k} is not identifiable from probes {alens}")
 
 
 def sql_text(f: int, keys: List[str], LENS: List[int], ALENS: List[int]):
@@ -316,6 +330,7 @@ def check_scope(rep: Report, layout: str, maxset: int, maxtotal: int, seed: int)
                  f"again) x paths/strings")
     if not m.records:
         raise MachineryError("ConfigLayers emitted no cases")
+    decoder_selfcheck(m.records[0]["filedirs"])
     groups: Dict[str, dict] = {}
     recs = {}
     for n, rec in enumerate(m.records):
